@@ -18,6 +18,9 @@ E2 (bounded input-space enumeration) over five finite spaces:
             onto 0..n-1 may yield a Tree.
   misuse    documented refusals of the TreeNode/Tree constructors for every position of the offending
             child; a refused construction must not change its arguments.
+  audit     dimension families (see bounds()['dimension_families']): magnitude (scaled), array / argument
+            flavours, input aliasing, empty and surplus labels, many items (big), refusals followed by a valid
+            call, nesting depth (deep).
   eqpairs   == between every two trees with <= 3 leaves equals equality of the order-free canonical
             forms (exception: unspecified).
 """
@@ -40,7 +43,8 @@ RULE = (
     "non-trivial when the tree has >= 2 leaves and a unary node, an inner node with >= 3 children, a "
     "non-identity leaf permutation or a non-unit distance palette. labeling/misuse/eqpairs: every listed "
     "case once; non-trivial when the input is not a valid tree (labeling, misuse) or the two trees differ "
-    "(eqpairs)."
+    "(eqpairs). Dimension families: every listed (case, scale / flavour / size / depth) once; all count as non-trivial "
+    "except the valid-labelling controls."
 )
 ASSUMPTIONS = [
     "distances are compared with tolerance 1e-5*max(1,|d|) (biotite stores float32); Newick text written "
@@ -53,8 +57,17 @@ ASSUMPTIONS = [
     "== raising an exception for two different trees is counted as unspecified, not as a violation "
     "(the statement does not mention ==); == is required to hold between a tree and its copy / its exact "
     "Newick round trip and to fail for a tree with one changed distance or two swapped leaves",
-    "malformed Newick input, NaN/inf/negative distances and out-of-range arguments of get_distance are "
+    "malformed Newick input, NaN/inf/negative branch lengths and out-of-range arguments of get_distance are "
     "not generated (outside the quantifier)",
+    "matrix entries within a factor n of the float32 maximum are not generated (the float32 sums overflow: upgma "
+    "raises TreeError, neighbor_joining returns NaN lengths); float32 denormals (< 1e-38) are not generated",
+    "RecursionError from == for two different trees nested deeper than about 500 levels is unspecified; a clean "
+    "exception for trees nested 30 000 levels or deeper is unspecified, a killed interpreter is a violation",
+    "argument flavours the documentation does not promise (numpy scalars as index, float32/int64 arrays as distances, "
+    "tuple of labels for the reader, str subclasses, list / object matrices) may be refused; if accepted the result "
+    "must equal the plain-type result",
+    "an only child with an empty label and no length is written as '()', which biotite's own tests define as invalid "
+    "Newick: reading it back is unspecified",
 ]
 EXHAUSTIVE = True
 SHARD_TIMEOUT = {"quick": 600, "thorough": 2400}
@@ -125,6 +138,25 @@ def bounds(tier):
         "writer_options": "labels {None, plain, awkward, numeric-reversed, with-blank} x include_distance x "
                           "round_distance {None,0,3}",
         "reader_variants": ["plain", "comma_space", "multiline", "colon_space", "no_semicolon"],
+        "dimension_families": {
+            "scaled": "n=4 matrices over {0,a,b} (729) and all n=4 additive matrices (2 palettes) x scale factors %r, "
+                      "tolerances relative to the largest entry" % SCALES,
+            "flavours": "matrices n=2,3 (all) and n=4 over {a,b} x {read-only, read-only float32, transposed view, uint8, "
+                        "int8, float16, big-endian, ndarray subclass; list and object dtype as unspecified}, n=4 also x "
+                        "the 5 older variants; tree API: shapes <=3 leaves x 7 required + 17 optional argument flavours "
+                        "(containers, numpy scalars, 0-d arrays) compared with the plain-type result",
+            "aliasing": "every hand-built tree: argument lists changed after TreeNode(), Tree.leaves / get_indices / "
+                        "get_leaves results changed and re-read, labels list compared after writer/reader; every "
+                        "matrix: input changed after the call, tree re-read",
+            "empty_pieces": "label sets with one empty label and with one surplus label (palettes ones, distinct)",
+            "big": "trees {star, caterpillar, balanced, broom} x n in {9,10,11,12,99,100,101,130,260%s}; upgma/nj on a "
+                   "scattered and a chain matrix and nj on additive matrices of listed trees, n in {9..12,33,100,101,260%s}; "
+                   "taxon-permutation differential for n<=33" % ((", 999,1000,1001", ", 130, 257") if tier != "quick" else ("", "")),
+            "refuse": "all 4032 invalid 3x3 matrices over {-1,0,1,2}, single asymmetric/negative/NaN/inf deviations of a "
+                      "4x4 matrix at every position, non-square and non-2-D shapes; then a valid call",
+            "deep": "caterpillars nested %s levels must work; 30000 and 100000 levels may be refused but must not end the "
+                    "process (9 operations, forked)" % ("1100" if tier == "quick" else "999,1000,1001,1100,3000"),
+        },
         "labeling": "shapes with <=3 leaves (<=1 unary) x {0..n}^n; 4 leaves (no unary) x {0..4}^4",
         "eqpairs_leaves": 3,
     }
@@ -417,26 +449,23 @@ def judge_upgma(ctx, t, D, case, cls, unit=1.0):
     scale = max(unit, max(max(r) for r in D))
     eps = 1e-5 * scale
     merges = []
-    for nd in nodes:
+    height = {}          # nid -> distance from the node down to the leaves below it (bottom-up)
+    below = {}           # nid -> frozenset of leaf indices
+    for nd in reversed(nodes):
         if nd.idx is not None:
+            height[nd.nid] = 0.0
+            below[nd.nid] = frozenset((nd.idx,))
             continue
-        A = frozenset(M.leaf_indices(nd.children[0]))
-        B = frozenset(M.leaf_indices(nd.children[1]))
-        merges.append((A, B))
-        want = 0.5 * M.avg_link(D, A, B)
-        # height = path length from this node down to every leaf below it
-        hs = []
-        for lf in nodes:
-            if lf.idx is not None and (lf.idx in A or lf.idx in B):
-                h, x = 0.0, lf
-                while x is not nd:
-                    h += x.dist
-                    x = x.parent
-                hs.append(h)
+        hs = [c.dist + height[c.nid] for c in nd.children]
         if max(hs) - min(hs) > eps:
             ctx.violation("upgma|not_ultrametric|%s" % cls, "leaves below a node are not equally distant from it",
                           case, "equal depths", hs)
             return
+        height[nd.nid] = hs[0]
+        A, B = below[nd.children[0].nid], below[nd.children[1].nid]
+        below[nd.nid] = A | B
+        merges.append((A, B))
+        want = 0.5 * M.avg_link(D, A, B)
         if abs(hs[0] - want) > eps:
             sizes = "equal_sizes" if len(A) == len(B) else "unequal_sizes"
             ctx.violation("upgma|merge_height|%s|%s" % (cls, sizes),
@@ -1428,6 +1457,34 @@ def big_matrix(n):
     return D
 
 
+def chain_matrix(n):
+    """d(a,b) = 2*max(a,b) + small distinct offsets: average linkage adds the taxa one by one (caterpillar), so the
+    growing cluster's size passes every count up to n-1 while other clusters are still present"""
+    D = [[0.0] * n for _ in range(n)]
+    for a in range(n):
+        for b in range(a + 1, n):
+            D[a][b] = D[b][a] = 2.0 * b + ((a * 7 + b * 3) % 5) / 16
+    return D
+
+
+def same_spec(a, b):
+    """equality of two tree specifications without recursion"""
+    st = [(a, b)]
+    while st:
+        x, y = st.pop()
+        if isinstance(x, int) or isinstance(y, int):
+            if not (isinstance(x, int) and isinstance(y, int) and x == y):
+                return False
+            continue
+        if len(x) != len(y):
+            return False
+        for (cx, dx), (cy, dy) in zip(x, y):
+            if dx != dy:
+                return False
+            st.append((cx, cy))
+    return True
+
+
 def size_class(n):
     return "n_%d_digits" % len(str(n - 1)) if n <= 1001 else "n_gt_1001"
 
@@ -1495,7 +1552,7 @@ def check_big(ctx, case):
                 try:
                     t2 = Tree.from_newick(s, labels=labels) if labels is not None else Tree.from_newick(s)
                     bad = _cmp_clades(exp_map, extract(t2.root), "exact" if incl else "zero", None)
-                    if not bad and incl and not (t2 == tree and hash(t2) == hash(tree)):
+                    if not bad and incl and _equal(ctx, t2, tree) is False:
                         bad = ("not_equal_to_original", True, False)
                     if not bad and incl:
                         for (i, j), g in ld.items():
@@ -1510,9 +1567,9 @@ def check_big(ctx, case):
         try:
             c = tree.copy()
             bad = None
-            if extract(c.root) != impl_spec:
+            if not same_spec(extract(c.root), impl_spec):
                 bad = ("structure", None, None)
-            elif not (c == tree and hash(c) == hash(tree)):
+            elif _equal(ctx, c, tree) is False:
                 bad = ("not_equal", True, False)
         except Exception as e:  # noqa: BLE001
             bad = ("raises_" + type(e).__name__, "tree", repr(e)[:300])
@@ -1541,7 +1598,8 @@ def check_big(ctx, case):
         return
 
     if what == "cluster":
-        D = big_matrix(n)
+        D = chain_matrix(n) if case.get("matrix") == "chain" else big_matrix(n)
+        cls += "|" + case.get("matrix", "scattered")
         arr = np.array(D)
         try:
             t = upgma(arr)
@@ -1611,6 +1669,17 @@ def check_big(ctx, case):
     raise ValueError(case)
 
 
+def _equal(ctx, a, b):
+    """a == b and equal hashes; None (unspecified) when == itself raises: it is not part of the statement and
+    runs into the interpreter's recursion limit for two different objects nested deeper than about 500 levels"""
+    try:
+        return bool(a == b and hash(a) == hash(b))
+    except RecursionError:
+        ctx.count("unspecified")
+        ctx.count("eq_raises_RecursionError")
+        return None
+
+
 def big_cases(tier):
     q = tier == "quick"
     out = []
@@ -1618,8 +1687,9 @@ def big_cases(tier):
     for n in sizes:
         for shape in ("star", "caterpillar", "balanced", "broom"):
             out.append({"kind": "big", "what": "tree", "shape": shape, "n": n})
-    for n in [9, 10, 11, 12, 33, 100, 101] + ([] if q else [130, 260]):
-        out.append({"kind": "big", "what": "cluster", "n": n})
+    for n in [9, 10, 11, 12, 33, 100, 101, 260] + ([] if q else [130, 257]):
+        for mk in ("scattered", "chain"):
+            out.append({"kind": "big", "what": "cluster", "n": n, "matrix": mk})
     for n in [9, 10, 11, 12, 33, 100, 101] + ([] if q else [130, 260]):
         for shape in ("caterpillar", "balanced", "broom") if n <= 101 else ("balanced", "broom"):
             out.append({"kind": "big", "what": "additive", "shape": shape, "n": n})
@@ -1781,7 +1851,7 @@ def check_deep(ctx, case):
 
     op, depth = case["op"], case["depth"]
     cls = "nesting_le_3000" if depth <= 3000 else "nesting_deeper_than_10000"
-    r = ctx.isolated(_deep_op, (op, depth), timeout=240)
+    r = ctx.isolated(_deep_op, (op, depth), timeout=1200 if op == "from_newick" and depth > 3000 else 240)
     ctx.outcome((op, depth, r[0], r[1] if r[0] in ("exc", "signal") else None))
     if r[0] == "ok":
         ctx.count("accepted")
